@@ -221,6 +221,10 @@ func bindValues() []GV {
 		{T: "struct", ID: 1, Elems: []GV{gInt("KInt", "1"), gSlice("EInt", gInt("KInt", "2"))}},
 		{T: "struct", ID: 10}, {T: "struct", ID: 11},
 		{T: "ptr", ID: 1}, {T: "ptr", Nil: true},
+		{T: "ptrto", Name: 2, Under: &GV{T: "struct", ID: 2, Elems: []GV{gInt("KInt", "4"), gStr(5)}}},
+		{T: "ptrto", Name: 2, Nil: true, Under: &GV{T: "struct", ID: 2, Elems: []GV{gInt("KInt", "0"), gStr(0)}}},
+		{T: "ptrto", Name: 10, Under: &GV{T: "struct", ID: 10}},
+		{T: "ptrto", Name: 10, Nil: true, Under: &GV{T: "struct", ID: 10}},
 		{T: "func", ID: 1}, {T: "chan", ID: 1}, {T: "complex", ID: 2},
 		{T: "array", Elems: []GV{gInt("KInt", "1"), gInt("KInt", "2")}},
 	}
